@@ -1290,7 +1290,7 @@ def _handle_upload_pack_tail(
             elif chan == SIDE_BAND_CHANNEL_FATAL:
                 raise GitProtocolError(data.decode("utf-8", "replace"))
             else:
-                raise AssertionError(f"Invalid sideband channel {chan}")
+                raise GitProtocolError(f"Invalid sideband channel {chan}")
     else:
         while True:
             data = proto.read(rbufsize)
@@ -1930,7 +1930,7 @@ class GitClient:
                 elif chan == SIDE_BAND_CHANNEL_FATAL:
                     raise GitProtocolError(data.decode("utf-8", "replace"))
                 else:
-                    raise AssertionError(f"Invalid sideband channel {chan}")
+                    raise GitProtocolError(f"Invalid sideband channel {chan}")
         else:
             if CAPABILITY_REPORT_STATUS in capabilities:
                 assert self._report_status_parser
@@ -2514,7 +2514,7 @@ class TraditionalGitClient(GitClient):
                     if write_error is not None:
                         write_error(data)
                 else:
-                    raise AssertionError(f"Invalid sideband channel {chan}")
+                    raise GitProtocolError(f"Invalid sideband channel {chan}")
 
 
 class TCPGitClient(TraditionalGitClient):
